@@ -874,9 +874,17 @@ def vk(v):
     return v.key() if hasattr(v, "key") else str(v)
 
 
-def _shape_signature(prog: Program, q: str):
+SHAPE_GENERATORS = ("l_shape", "lop_u", "c_shape", "open_rectangle")
+_SIG_RATS: dict = {}
+
+
+def _shape_signature(prog: Program, q: str, _depth: int = 0, as_rat: bool = False):
     """{(x, y, loop lo, loop hi)} of every coordinate tuple a generator appends (loop variable named 'k')"""
+    if as_rat:
+        fi0, keys = _shape_signature(prog, q, _depth, as_rat=False)
+        return fi0, _SIG_RATS.get(q, [])
     fi = prog.func(q)
+    _SIG_RATS[q] = []
     eng = Engine(prog, fi, Hooks())
     st = State()
     for p in fi.params():
@@ -914,6 +922,42 @@ def _shape_signature(prog: Program, q: str):
             if not all(isinstance(v, Rat) for v in (x, y, lo, hi)):
                 raise AnalysisError(f"{q}: coordinate expression not understood")
             sig.add((x.key(), y.key(), lo.key(), hi.key()))
+            _SIG_RATS.setdefault(q, []).append((x, y, lo, hi))
+    # the same runs written as comprehensions:  [(X, Y) for v in range(a, b)]
+    for n in ast.walk(fi.node):
+        if isinstance(n, ast.ListComp) and isinstance(n.elt, ast.Tuple) and len(n.elt.elts) == 2:
+            if len(n.generators) != 1 or n.generators[0].ifs or not isinstance(n.generators[0].target, ast.Name) \
+                    or not (isinstance(n.generators[0].iter, ast.Call) and attr_chain(n.generators[0].iter.func) == "range"):
+                raise AnalysisError(f"{q}: coordinate comprehension is not a single unfiltered range")
+            g = n.generators[0]
+            s2 = st.fork()
+            s2.env[g.target.id] = Rat.atom("k")
+            x, y = eng.eval(n.elt.elts[0], s2), eng.eval(n.elt.elts[1], s2)
+            a = g.iter.args
+            lo = eng.eval(a[0], s2) if len(a) == 2 else Rat.const(0)
+            hi = eng.eval(a[-1], s2)
+            if not all(isinstance(v, Rat) for v in (x, y, lo, hi)):
+                raise AnalysisError(f"{q}: coordinate expression not understood")
+            sig.add((x.key(), y.key(), lo.key(), hi.key()))
+            _SIG_RATS.setdefault(q, []).append((x, y, lo, hi))
+    # a shape composed of another shape generator of the module: that generator's runs with its parameters replaced by the arguments
+    if _depth < 3:
+        for n in ast.walk(fi.node):
+            if isinstance(n, ast.Call) and isinstance(n.func, ast.Name) and n.func.id != fi.name and prog.has_func(f"{COORD}.{n.func.id}") and n.func.id in SHAPE_GENERATORS:
+                sub_fi, sub_sig_rat = _shape_signature(prog, f"{COORD}.{n.func.id}", _depth + 1, as_rat=True)
+                b = bind_args(sub_fi, n)
+                mp = {}
+                for p_, a_ in b.items():
+                    v_ = eng.eval(a_, st)
+                    if not isinstance(v_, Rat):
+                        raise AnalysisError(f"{q}: argument {p_} of {n.func.id}() not understood")
+                    mp[p_] = v_
+                for row in sub_sig_rat:
+                    new_row = tuple(r_.subs(mp) for r_ in row)
+                    sig.add(tuple(r_.key() for r_ in new_row))
+                    _SIG_RATS.setdefault(q, []).append(new_row)
+    if as_rat:
+        return fi, None
     return fi, sig
 
 
@@ -979,8 +1023,26 @@ def _check_shapes(prog: Program, res: Result):
     for stmt in sorted((x for x in ast.walk(fi.node) if isinstance(x, ast.Assign)), key=lambda x: (x.lineno, x.col_offset)):  # the spacing definitions, at whatever nesting depth
         if isinstance(stmt.targets[0], ast.Name) and isinstance(stmt.value, ast.BinOp):
             st.env[stmt.targets[0].id] = eng.eval(stmt.value, st)
-    ext = [c for c in ast.walk(fi.node) if isinstance(c, ast.Call) and isinstance(c.func, ast.Attribute) and c.func.attr == "extend" and c.args and isinstance(c.args[0], ast.Call)]
-    parts = {attr_chain(c.args[0].func): c.args[0] for c in ext}
+    # the two parts, however they are put together: L.extend(part) on the returned list, or `return a + b` / `return part + part`
+    rets_ = [r_ for r_ in ast.walk(fi.node) if isinstance(r_, ast.Return) and r_.value is not None]
+    ret_names = {x.id for r_ in rets_ for x in ast.walk(r_.value) if isinstance(x, ast.Name)}
+    parts = {}
+    for c in ast.walk(fi.node):
+        if not (isinstance(c, ast.Call) and attr_chain(c.func) in ("open_rectangle", "rectangle")):
+            continue
+        reaches = any(c is x for r_ in rets_ for x in ast.walk(r_.value))
+        for s_ in ast.walk(fi.node):
+            if isinstance(s_, ast.Call) and isinstance(s_.func, ast.Attribute) and s_.func.attr == "extend" and s_.args and s_.args[0] is c and isinstance(s_.func.value, ast.Name) and s_.func.value.id in ret_names:
+                reaches = True
+            if isinstance(s_, ast.Assign) and s_.value is c and len(s_.targets) == 1 and isinstance(s_.targets[0], ast.Name):
+                nm_ = s_.targets[0].id
+                if nm_ in ret_names or any(isinstance(e_, ast.Call) and isinstance(e_.func, ast.Attribute) and e_.func.attr == "extend" and e_.args and isinstance(e_.args[0], ast.Name) and e_.args[0].id == nm_
+                                           and isinstance(e_.func.value, ast.Name) and e_.func.value.id in ret_names for e_ in ast.walk(fi.node)):
+                    reaches = True
+        if reaches:
+            if attr_chain(c.func) in parts:
+                parts["<twice>"] = c
+            parts[attr_chain(c.func)] = c
     ok = set(parts) == {"open_rectangle", "rectangle"}
     if ok:
         o, r = parts["open_rectangle"], parts["rectangle"]
